@@ -446,6 +446,14 @@ def run(c: Check):
     c.samples = [dict(nodes=x["nodes"], first=x.get("first"), instance_logs=x["raw"]["instance"]["logs"],
                       params_log=x["raw"]["params"]["log"]) for x in good[:2]]
     bad = c.corr_shards("corr", HEADER, good, g_case, "check_case", shard=100)
+    if bad:
+        # diagnosis: do the disagreeing cases match the variant that calls __post_init__ before the attribute copy?
+        sub = [good[i] for i in bad[:200]]
+        saved = list(c.obligations)
+        bad_pf = c.corr_shards("diag", HEADER, sub, g_case, "check_case_post_first", shard=100)
+        c.obligations = saved
+        c.extra["disagreeing_total"] = len(bad)
+        c.extra["disagreeing_cases_match_post_init_before_copy"] = len(sub) - len(bad_pf)
     c.extra["disagreeing_cases"] = [dict(nodes=good[i]["nodes"], first=good[i].get("first"), raw=good[i]["raw"])
                                     for i in bad[:3]]
     c.level_assumptions = [
